@@ -378,6 +378,11 @@ def c01(tier, seed):
             k += 1
             runs.append(fb("h_chan", "mon", "multi", seed, k, thr, mode="stall", stall_point=sp, stall_every=5, stall_us_lo=50, stall_us_hi=1500,
                            trials=4 if q else 30, livelock_prop="C01"))
+    # a sleeper whose lock is given up before its switch has completed is only reached by the timer after one or two ticks
+    for thr in ((2, 4) if q else (2, 4, 8)):
+        k += 1
+        runs.append(fb("h_sleep", "mon", "sleep", seed, k, thr, mode="stall", stall_point="SLEEP_REGISTERED", stall_every=5, stall_us_lo=4000, stall_us_hi=16000,
+                       trials=4 if q else 20, scenario=5, livelock_prop="C01"))
     # finished-first joins under ASan with the joiner held right after it has handed the finished fiber back
     for sp in ("SCHEDULED", "JOIN_CLAIMED"):
         k += 1
